@@ -3,7 +3,8 @@
      (c14 op (id ..) (optype query|mutation) (text "..") (vars "..") (protected "T.f"..) (domain "T.f"..)
              (base <json>|(absent))
              (plan <optype> (fetches (fetch id "ds" optype (roots (r "T" "f" rule)..))..) (tree <pnode>) (gocoords (c "ds" "T" "f")..)))
-     (c14 run (id ..) (mode pre|post) (optype ..) (d "T.f,..") (denied (p ..)..) (gw <json>|(absent)) (gwerrs (p ..)..)
+     (c14 run (id ..) (mode pre|post) (optype ..) (d "T.f,..") (hooks none|rl|rlx|tr|rltr installed calls)
+              (denied (p ..)..) (gw <json>|(absent)) (gwerrs (p ..)..)
               (ref <json>|(skip)) (referrs n) (seen (c "T" "f")..) (asked ..) (objasked ..)
               (reqs (rq "ds" optype (roots (r "T" "f" protected denied)..) planroots)..)
               (gates (g id "ds" optype (roots (r "T" "f" rule)..) sent eligible unique (req optype (roots (r "T" "f" protected denied)..)))..)
@@ -16,7 +17,12 @@
    run line: the extracted clause checkers run on the real response / request log; the extracted
              gate model (seeded from the Go coordinates by the run's decisions) must agree with
              what was sent (corr:C14/gate); the batch authorizer's recorded questions must be the
-             projection of the coordinates (corr:C14/authorize_prefetch). *)
+             projection of the coordinates (corr:C14/authorize_prefetch).
+             hooks: the loader's other pre-fetch hooks of the run.  An allowing rate limiter and tracing must be
+             transparent: every clause is evaluated as without them.  Under a REJECTING limiter (rlx, installed) no
+             fetch that carries a FetchInfo is sent (model: validate_pre_fetch), so only the clauses that do not
+             depend on fetched data are evaluated: denied_absent, sentinel_absent, collector_complete, fetch_gate
+             (nothing that must not be sent is sent), and the gate correspondence. *)
 let bs = bytes_of_string
 let rec json_of (x : sexp) : json =
   match x with
@@ -131,7 +137,14 @@ let handle (x : sexp) : (string * string) list =
     let add st d = res := (st, d) :: !res in
     let mode = (match find "mode" items with [A m] -> m | _ -> "?") in
     let dstr = (match find "d" items with [S s] -> s | _ -> "") in
-    let tail = Printf.sprintf " mode=%s d=%s id=%s" mode (quote_string dstr) (print_sexp id) in
+    let (hooks, lim_installed, lim_calls) = (match find_opt "hooks" items with
+        | Some [A h; inst; A calls] -> (h, sbool inst, int_of_string calls)
+        | _ -> ("none", false, 0)) in
+    let htag = if hooks = "none" then "" else " hooks=" ^ hooks in
+    let tail = Printf.sprintf " mode=%s d=%s%s id=%s" mode (quote_string dstr) htag (print_sexp id) in
+    (* the limiter of the run as the model sees it: None = not on the request context *)
+    let limiter = if lim_installed then Some (fun (_ : fetchinfo) -> if hooks = "rlx" || hooks = "rlxtr" then RlReject else RlPass) else None in
+    let rejecting = lim_installed && (hooks = "rlx" || hooks = "rlxtr") in
     if print_sexp id <> !cur_id then [("error", "run line without its op line" ^ tail)] else
     (match find_opt "execerror" items with
      | Some [S m] -> [("specfail", "execution_error the engine failed under the authorizer though it succeeds without: " ^ m ^ tail)]
@@ -152,12 +165,13 @@ let handle (x : sexp) : (string * string) list =
       let bad = List.filter (fun p -> not (denied_absent_b gw [p])) denied in
       add "specfail" (Printf.sprintf "denied_absent%s non-null value at denied position(s) %s%s" (if flag "merged" then "/merged" else "") (show_paths bad) tail) end;
     (* 2 denied_reported *)
-    if not (denied_reported_b gw errs denied) then begin
+    if not rejecting && not (denied_reported_b gw errs denied) then begin
       let bad = List.filter (fun p -> not (denied_reported_b gw errs [p])) denied in
       add "specfail" (Printf.sprintf "denied_reported%s no error with the path of denied position(s) %s%s" (if flag "merged" then "/merged" else "") (show_paths bad) tail) end;
     (* 3 propagates_like_null *)
     (match find "ref" items with
      | [L [A "skip"]] -> ()
+     | [_] when rejecting -> ()
      | [j] ->
        let rf = json_of j in
        let eq = json_eqb (jsort gw) (jsort rf) in
@@ -172,11 +186,12 @@ let handle (x : sexp) : (string * string) list =
         | Some [j] -> Some (json_of j)
         | _ -> !cur_base) in
     (match base_opt with
+     | Some _ when rejecting -> ()
      | Some base -> if not (untouched_b base gw [] denied) then add "specfail" ("allowed_untouched" ^ hidden ^ " a position outside the denied ones differs from the run without denials" ^ tail)
      | None -> ());
     (* 4b requires_input_intact: an allowed field whose @requires input is denied still resolves *)
     (match find_opt "starved" items with
-     | Some (_ :: _ as l) ->
+     | Some (_ :: _ as l) when not rejecting ->
        add "specfail" (Printf.sprintf "requires_input_intact allowed field(s) %s changed because the fetch of their denied @requires input was skipped%s"
                          (String.concat " " (List.map str l)) tail)
      | _ -> ());
@@ -221,11 +236,12 @@ let handle (x : sexp) : (string * string) list =
       List.iter (function
           | L [A "g"; A fid; S ds; A fop; L (A "roots" :: rs); sent; elig; uniq; L [A "req"; A reqop; L (A "roots" :: rrs)]] ->
             let ft = { ft_ds = bs ds; ft_op = optype_of fop; ft_roots = List.map root_of rs } in
-            let verdict = is_fetch_authorized true planop ft cache in
+            let gate = is_fetch_authorized true planop ft cache in
+            let verdict = validate_pre_fetch true planop (Some ft) cache lim_installed limiter in
             let sent = sbool sent and elig = sbool elig in
             if (sent && sbool uniq && not verdict) || (elig && verdict && not sent) then
-              add "mismatch" (Printf.sprintf "corr:C14/gate fetch %s to %s: model verdict=%b, sent=%b eligible=%b%s" fid ds verdict sent elig tail);
-            if elig && not sent && reqop <> "unknown" then begin
+              add "mismatch" (Printf.sprintf "corr:C14/gate fetch %s to %s: model verdict=%b (gate=%b), sent=%b eligible=%b%s" fid ds verdict gate sent elig tail);
+            if elig && not sent && not rejecting && reqop <> "unknown" then begin
               let flags = List.map (function L [A "r"; S _; S _; p; dn] -> (sbool p, sbool dn) | _ -> raise (Sexp_error "req root")) rrs in
               let names = String.concat " " (List.map (function L [A "r"; S t; S f; _; dn] -> t ^ "." ^ f ^ (if sbool dn then "!" else "") | _ -> "") rrs) in
               if not (must_not_send (optype_of reqop) flags) then
@@ -234,6 +250,9 @@ let handle (x : sexp) : (string * string) list =
             end
           | _ -> raise (Sexp_error "gate")) (find "gates" items)
     end;
+    (* 9 a limiter that was never consulted although it is installed and something was sent, or consulted under
+       "none", would mean the hooks of the run are not what the line says *)
+    if hooks = "none" && (lim_installed || lim_calls > 0) then add "error" ("hooks: limiter active in a run without hooks" ^ tail);
     if !res = [] then [("ok", if num sum "effective" >= 1 then "nt" else "tr")] else List.rev !res)
   | _ -> [("error", "unrecognised case")]
 
